@@ -11,6 +11,8 @@ use serde_json::{json, Value};
 use crate::wire::{self, NumSet, Sub};
 
 pub const FRAG_SIZE: u16 = 32;
+/// the peer that misbehaves in the hostile runs (matched or not); its own samples are not part of the trace
+pub const HOSTILE_W: u8 = 3;
 
 #[derive(Clone, Debug, Serialize, Deserialize)]
 #[serde(tag = "a")]
@@ -23,6 +25,8 @@ pub enum RAct {
     Heartbeat { w: u8, first: i64, last: i64, count: i32, fin: bool },
     Gap { w: u8, start: i64, base: i64, set: Vec<i64> },
     Take { max: usize },
+    /// hostile datagram(s) of a catalogue class from peer `w` (see hostile.rs)
+    Hostile { w: u8, cls: String },
 }
 
 #[derive(Clone, Debug, Serialize, Deserialize)]
@@ -84,6 +88,8 @@ pub struct Exec {
     pub reliable: bool,
     pub reader_eid: [u8; 4],
     pub captured: Vec<Vec<u8>>, // every datagram the reader emitted (for the wire checks)
+    pub hostile_front: i64,
+    pub hostile_count: i32,
 }
 
 fn outputs_by_writer(sent: &[rustdds::verif::net::Sent], captured: &mut Vec<Vec<u8>>) -> Vec<(u8, Vec<Value>, Vec<Value>)> {
@@ -129,7 +135,7 @@ impl Exec {
     pub fn new(reliable: bool) -> Self {
         let rig = ReaderRig::new(&[ReaderCfg { reliable, history_depth: None, max_samples: Some(1_000_000) }]);
         let reader_eid = rig.slots[0].entity_id;
-        Exec { rig, reliable, reader_eid, captured: vec![] }
+        Exec { rig, reliable, reader_eid, captured: vec![], hostile_front: 10, hostile_count: 1000 }
     }
 
     fn inject(&mut self, w: u8, subs: &[Sub]) -> Vec<(u8, Vec<Value>, Vec<Value>)> {
@@ -205,12 +211,31 @@ impl Exec {
                 out.push(json!({"ev":"Gap","w":w,"start":start,"base":base,"set":set}));
                 self.spont(o, out);
             }
+            RAct::Hostile { w, cls } => {
+                let ctx = crate::hostile::Ctx { src_prefix: writer_prefix(*w), writer_eid: writer_eid(*w), reader_eid: self.reader_eid, front: self.hostile_front, count: self.hostile_count };
+                self.hostile_count += 3;
+                self.hostile_front += 3;
+                let dgs = crate::hostile::reader_datagrams(cls, &ctx);
+                let total_len: usize = dgs.iter().map(|d| d.len()).sum();
+                crate::util::live_event(&json!({"ev":"HostileBegin","cls":cls,"w":w,"_streamed":true}));
+                let rig = &mut self.rig;
+                let m = crate::measure::measure(|| {
+                    for d in &dgs {
+                        let _ = rig.inject(d);
+                    }
+                });
+                out.push(json!({"ev":"Hostile","cls":cls,"w":w,"n":dgs.len(),"len":total_len,"panic":m.panic.is_some(),"msg":m.panic.unwrap_or_default(),"us":m.us as u64,"alloc":m.alloc as u64,"died":""}));
+            }
             RAct::Take { max } => {
                 let res = self.rig.slots[0].datareader.take(*max, ReadCondition::any());
                 match res {
                     Ok(v) => {
                         let got: Vec<Value> = v
                             .iter()
+                            .filter(|ds| {
+                                let g = rustdds::verif::reader_rig::guid_to_bytes(ds.sample_info().writer_guid());
+                                writer_of_prefix(&g[0..12]) != HOSTILE_W
+                            })
                             .map(|ds| {
                                 let info = ds.sample_info();
                                 let g = rustdds::verif::reader_rig::guid_to_bytes(info.writer_guid());
@@ -349,4 +374,53 @@ pub fn random_run(rng: &mut StdRng, n_events: usize) -> RunSpec {
 pub fn random_specs(seed: u64, runs: usize, events: usize) -> Vec<RunSpec> {
     let mut rng = StdRng::seed_from_u64(seed);
     (0..runs).map(|_| random_run(&mut rng, events)).collect()
+}
+
+/// C06: a well-behaved writer (1) talks to the reader while peer 3 (matched in half of the runs)
+/// sends one hostile class at a random point; afterwards the valid traffic continues.
+pub fn hostile_specs(seed: u64, runs: usize) -> Vec<RunSpec> {
+    let mut rng = StdRng::seed_from_u64(seed ^ 0xC06);
+    let classes = crate::hostile::reader_classes();
+    let mut out = vec![];
+    for k in 0..runs {
+        let cls = classes[k % classes.len()];
+        let matched = (k / classes.len()) % 2 == 0;
+        let mut acts = vec![RAct::Match { w: 1 }];
+        if matched {
+            acts.push(RAct::Match { w: HOSTILE_W });
+        }
+        let pre = rng.gen_range(0..6);
+        let mut sn = 0;
+        let mut hb = 0;
+        let mut valid = |acts: &mut Vec<RAct>, rng: &mut StdRng, n: usize| {
+            for _ in 0..n {
+                match rng.gen_range(0..4) {
+                    0 | 1 => {
+                        sn += if rng.gen_bool(0.2) { 2 } else { 1 };
+                        acts.push(RAct::Data { w: 1, sn });
+                    }
+                    2 => {
+                        hb += 1;
+                        acts.push(RAct::Heartbeat { w: 1, first: 1, last: sn, count: hb, fin: false });
+                    }
+                    _ => acts.push(RAct::Take { max: 100 }),
+                }
+            }
+        };
+        valid(&mut acts, &mut rng, pre);
+        // the hostile peer may also have sent something valid-looking before
+        if matched && rng.gen_bool(0.5) {
+            acts.push(RAct::Data { w: HOSTILE_W, sn: 1 });
+            acts.push(RAct::DataFrag { w: HOSTILE_W, sn: 2, fs: 1, fc: 1, tot: 3 });
+        }
+        acts.push(RAct::Hostile { w: HOSTILE_W, cls: cls.to_string() });
+        valid(&mut acts, &mut rng, 6);
+        // everything of writer 1 must still arrive
+        for s in 1..=sn {
+            acts.push(RAct::Data { w: 1, sn: s });
+        }
+        acts.push(RAct::Take { max: 10_000 });
+        out.push(RunSpec { reliable: true, acts });
+    }
+    out
 }
